@@ -125,6 +125,28 @@ def noOwnDeco : Ty → Val → Bool
 def aPush (a0 : AState) (n : Name) (t : Ty) : AState :=
   { names := (n, t) :: a0.names, ctxdefs := (n, t) :: a0.ctxdefs }
 
+mutual
+/-- no array / set / map whose element (key, value) type is a union: inside a value whose
+    named type the formatter already knows, union elements are written without their member
+    decorators (`known-name-union-elements-undecorated`). -/
+def noUnionElems : Ty → Bool
+  | .prim _ => true
+  | .record fs => noUnionElemsF fs
+  | .array t => !t.isUnion && noUnionElems t
+  | .set t => !t.isUnion && noUnionElems t
+  | .map k v => !k.isUnion && !v.isUnion && noUnionElems k && noUnionElems v
+  | .union ts => noUnionElemsT ts
+  | .enum _ => true
+  | .error t => noUnionElems t
+  | .named _ t => noUnionElems t
+def noUnionElemsF : Fields → Bool
+  | .nil => true
+  | .cons _ t r => noUnionElems t && noUnionElemsF r
+def noUnionElemsT : Tys → Bool
+  | .nil => true
+  | .cons t r => noUnionElems t && noUnionElemsT r
+end
+
 /-- the guard of `zson_roundtrip_value_named_top_partial` for a value of type `t` written by a
     formatter that has not seen the name yet. -/
 def namedTopGuard : Ty → Val → Bool
@@ -132,6 +154,41 @@ def namedTopGuard : Ty → Val → Bool
     nameOK n && plainTy u && wfTy u && wfVal u v && !v.isNull && !bareEmpty v && noOwnDeco u v &&
       (enumSyms u).isNone
   | _, _ => false
+
+/-! ### streams of values (zsonio.Writer / zsonio.Reader, Formatter.Format in a loop) -/
+
+/-- `reset = true`: `FormatRecord` (typedef scope = one value; the `persist` table survives);
+    `reset = false`: `Format` (typedef scope = the stream). -/
+def fmtStream (reset : Bool) : FState → List (Ty × Val) → List AVal
+  | _, [] => []
+  | st, (t, v) :: r =>
+    let res := fmtTop (if reset then st.resetTypedefs else st) t v
+    res.2 :: fmtStream reset res.1 r
+
+/-- one analyzer (and one context) for the whole stream; stops at the first error. -/
+def analyzeStream : AState → List AVal → Except Err (List TV)
+  | _, [] => .ok []
+  | st, a :: r =>
+    match analyzeTop st a with
+    | .error e => .error e
+    | .ok (st1, tv) =>
+      match analyzeStream st1 r with
+      | .error e => .error e
+      | .ok rest => .ok (tv :: rest)
+
+/-- what `zson_roundtrip_stream_partial` asks of each value of the stream: a plain value that
+    is not an empty container, or a non-null value of a named type over a plain type
+    (`namedTopGuard`) without union-typed container elements. -/
+def itemOK (tv : Ty × Val) : Bool :=
+  (plainTy tv.1 && wfTy tv.1 && wfVal tv.1 tv.2 && !bareEmpty tv.2) ||
+  (namedTopGuard tv.1 tv.2 && noUnionElems tv.1)
+
+/-- one name, one type — over the whole stream. -/
+def namesConsistent (items : List (Ty × Val)) : Bool :=
+  items.all fun a => items.all fun b =>
+    match a.1, b.1 with
+    | .named n u, .named m w => n != m || u == w
+    | _, _ => true
 
 /-- the model's own round trip of one value through a fresh formatter and a fresh analyzer
     (used to state the negation witnesses). -/
